@@ -21,6 +21,7 @@ def main():
     ap.add_argument("--props", default=",".join("C%02d" % i for i in range(1, 21)))
     ap.add_argument("--resume", action="store_true")
     ap.add_argument("--only", default=None)
+    ap.add_argument("--exclude", default=None)
     a = ap.parse_args()
     os.environ["VERIF_TIMEOUT_CAP"] = str(a.cap)
     vf.TIMEOUT_CAP = a.cap if hasattr(vf, "TIMEOUT_CAP") else None
@@ -32,6 +33,8 @@ def main():
             if "quick" in h.tiers or "thorough" not in h.tiers:
                 continue
             if a.only and not any(x in h.name for x in a.only.split(",")):
+                continue
+            if a.exclude and any(x in h.name for x in a.exclude.split(",")):
                 continue
             key = h.name + "|" + h.src + "|" + json.dumps(h.defines, sort_keys=True)
             if key in done and done[key]["status"] != "error":
